@@ -10,7 +10,8 @@ LEAN_TARGETS = ["H5V.Props.C14"]
 AUDIT_IMPORTS = ["H5V.Props.C14"]
 THEOREMS = ["H5V.Props.C14." + t for t in [
     "C14_table", "C14_c1", "C14_lookup_exact", "C14_lookup_prefix", "C14_lookup_none", "C14_rows_wellformed",
-    "C14_numeric_accumulator", "C14_finish_numeric"]]
+    "C14_numeric_accumulator", "C14_finish_numeric", "Walk.C14_named_longest", "Walk.C14_walk_is_do_named",
+    "Walk.lookup_prefix_closed"]]
 TRUSTED = [
     "Lean 4 kernel (decide +kernel over the 2231-row table); axioms ⊆ {propext, Classical.choice, Quot.sound}",
     "tools/extract.py regenerates lean/H5V/Gen/Entities.lean + C1.lean from web_atoms/entities.rs, lib.rs on every run",
